@@ -28,10 +28,15 @@ import (
 	"context"
 	"errors"
 	"fmt"
+	"os"
+	"runtime"
+	"runtime/debug"
 	"sort"
 	"strconv"
 	"strings"
+	"sync"
 	"testing"
+	"time"
 
 	"github.com/emersion/go-message/textproto"
 	"github.com/emersion/go-smtp"
@@ -67,6 +72,7 @@ type c04Node struct {
 	kind  string
 	ok    bool     // C, M: module exists; SI, TI: table exists; RJ: arguments valid
 	keys  []string // SI, TI
+	delay int      // SI, TI: the table module answers after this many units of virtual time
 	rules []string // SR, RU
 	mods  []c04Mod // M
 	darg  int      // D: -2 no argument, -1 unknown reference, >= 0 target id
@@ -146,7 +152,11 @@ func c04EncNode(b *[]string, n *c04Node) {
 		if !n.ok {
 			*b = append(*b, "x")
 		} else {
-			*b = append(*b, "T")
+			if n.delay > 0 {
+				*b = append(*b, "TD", strconv.Itoa(n.delay))
+			} else {
+				*b = append(*b, "T")
+			}
 			c04EncStrs(b, n.keys)
 		}
 		c04EncNodes(b, n.ch)
@@ -277,8 +287,13 @@ func (r *c04Reader) node() *c04Node {
 	switch {
 	case k == "SI" || k == "TI":
 		n.kind = k
-		if r.next() == "T" {
+		switch r.next() {
+		case "T":
 			n.ok = true
+			n.keys = r.strs()
+		case "TD":
+			n.ok = true
+			n.delay = r.num()
 			n.keys = r.strs()
 		}
 		n.ch = r.nodes()
@@ -387,7 +402,7 @@ func c04Render(b *strings.Builder, ns []*c04Node, level int, ind string, tblName
 			if !n.ok {
 				b.WriteString(name + " &c04_no_such_table {\n")
 			} else {
-				tm := &c04TableMod{inst: fmt.Sprintf("c04tbl%d", len(*tblNames)), m: map[string]bool{}}
+				tm := &c04TableMod{inst: fmt.Sprintf("c04tbl%d", len(*tblNames)), m: map[string]bool{}, delay: n.delay}
 				for _, k := range n.keys {
 					tm.m[k] = true
 				}
@@ -470,14 +485,151 @@ func c04Render(b *strings.Builder, ns []*c04Node, level int, ind string, tblName
 // ---------------------------------------------------------------- module instances
 
 type c04TableMod struct {
-	inst string
-	m    map[string]bool
+	inst  string
+	m     map[string]bool
+	delay int       // answer latency in units of virtual time
+	sched *c04Sched // the virtual clock of the case
 }
+
+// Virtual time for the table modules of one case.  A lookup of a table with latency d that is started
+// at (virtual) time t is answered at t+d; the clock moves only when every lookup in flight is waiting,
+// and the lookup with the earliest answer time is released first (ties: the one started first).  A
+// lookup whose context ends while it waits returns the context's error at once (the modules honour
+// their context, as a table backed by a database or a directory server does).  Nothing sleeps: the
+// release order is the one the case scripts with the latencies, whatever the machine does.
+//
+// The code under test consults the tables one after the other on the goroutine that called
+// Start/AddRcpt: then there is nothing to wait for and the answer is given at once.  When a lookup
+// arrives on another goroutine (or several are in flight) the module cannot know whether more lookups
+// are about to be started, so it lets the other goroutines run (c04QuietYields calls of
+// runtime.Gosched without any lookup being started or answered) before it takes the clock forward.
+// That only happens on trees that consult the tables concurrently; what is observed there still
+// depends on the scripted order only, not on the clock of the machine.
+type c04Sched struct {
+	mu      sync.Mutex
+	now     int64
+	seq     int
+	gen     int // changes whenever a lookup is started or answered
+	pending []*c04Wait
+	driver  string // id of the goroutine that sends the envelopes
+	base    int    // runtime.NumGoroutine() when the driver called into the pipeline
+}
+
+type c04Wait struct {
+	at  int64
+	seq int
+}
+
+const c04QuietYields = 2000
+
+// one unit of virtual time, when it has to be compared with a context deadline
+const c04TimeUnit = time.Second
+
+var c04CurSched *c04Sched
+
+func c04Goid() string {
+	var buf [64]byte
+	n := runtime.Stack(buf[:], false)
+	f := strings.Fields(string(buf[:n])) // "goroutine 123 [running]:"
+	if len(f) >= 2 {
+		return f[1]
+	}
+	return "?"
+}
+
+// c04Enter is called by the driver before every call into the pipeline
+func (s *c04Sched) enter() {
+	if s == nil {
+		return
+	}
+	s.mu.Lock()
+	s.base = runtime.NumGoroutine()
+	s.mu.Unlock()
+}
+
+func (s *c04Sched) drop(w *c04Wait) {
+	for i, o := range s.pending {
+		if o == w {
+			s.pending = append(s.pending[:i], s.pending[i+1:]...)
+			break
+		}
+	}
+	s.gen++
+}
+
+func (s *c04Sched) wait(ctx context.Context, delay int) error {
+	if err := ctx.Err(); err != nil {
+		return err
+	}
+	if delay == 0 || s == nil {
+		return nil
+	}
+	if dl, ok := ctx.Deadline(); ok && time.Until(dl) < time.Duration(delay)*c04TimeUnit {
+		return context.DeadlineExceeded // the caller stops waiting before this table answers
+	}
+	s.mu.Lock()
+	w := &c04Wait{at: s.now + int64(delay), seq: s.seq}
+	s.seq++
+	s.gen++
+	s.pending = append(s.pending, w)
+	alone, base, driver := len(s.pending) == 1, s.base, s.driver
+	s.mu.Unlock()
+	need := c04QuietYields
+	onDriver := c04Goid() == driver
+	if (!alone || !onDriver) && c04SchedStat != nil {
+		c04SchedStat("table.lookup.concurrent-or-foreign-goroutine")
+	}
+	if alone && onDriver {
+		// the ordinary case: called by the goroutine that called Start/AddRcpt, nothing else going on
+		for i := 0; i < 200; i++ {
+			if runtime.NumGoroutine() == base {
+				need = 0
+				break
+			}
+			runtime.Gosched() // goroutines of the checks that are just finishing
+		}
+	}
+	quiet, last := 0, -1
+	for {
+		if err := ctx.Err(); err != nil {
+			s.mu.Lock()
+			s.drop(w)
+			s.mu.Unlock()
+			return err
+		}
+		s.mu.Lock()
+		if s.gen != last {
+			last, quiet = s.gen, 0
+		}
+		first := true
+		for _, o := range s.pending {
+			if o != w && (o.at < w.at || o.at == w.at && o.seq < w.seq) {
+				first = false
+			}
+		}
+		if first && quiet >= need {
+			if w.at > s.now {
+				s.now = w.at
+			}
+			s.drop(w)
+			s.mu.Unlock()
+			return nil
+		}
+		s.mu.Unlock()
+		quiet++
+		runtime.Gosched()
+	}
+}
+
+var c04SchedStat func(string)
 
 func (t *c04TableMod) Init(*config.Map) error { return nil }
 func (t *c04TableMod) Name() string           { return "c04_table" }
 func (t *c04TableMod) InstanceName() string   { return t.inst }
-func (t *c04TableMod) Lookup(_ context.Context, k string) (string, bool, error) {
+func (t *c04TableMod) Lookup(ctx context.Context, k string) (string, bool, error) {
+	if err := t.sched.wait(ctx, t.delay); err != nil {
+		return "", false, err
+	}
 	if t.m[k] {
 		return "1", true, nil
 	}
@@ -608,6 +760,7 @@ func c04RunEnv(p *MsgPipeline, e c04Env) (obs c04EnvObs, bad string) {
 	ctx := context.Background()
 	meta := &module.MsgMetadata{ID: "c04", OriginalFrom: e.from, SMTPOpts: smtp.MailOptions{UTF8: true}}
 	c04Log = nil
+	c04CurSched.enter()
 	d, err := p.Start(ctx, meta, e.from)
 	obs.mail = c04Refusal(err)
 	if err != nil {
@@ -619,6 +772,7 @@ func c04RunEnv(p *MsgPipeline, e c04Env) (obs c04EnvObs, bad string) {
 	accepted := 0
 	for _, r := range e.rcpts {
 		c04Log = nil
+		c04CurSched.enter()
 		err := d.AddRcpt(ctx, r, smtp.RcptOptions{})
 		obs.rcpts = append(obs.rcpts, c04RcptObs{res: c04Refusal(err), delivs: c04Log})
 		if err == nil {
@@ -966,15 +1120,35 @@ func c04Pick(ns []*c04Node, tblKind, ruleKind, dfltKind string, k string, nullSe
 			c04PickStat("sel." + ruleKind + "." + what)
 		}
 	}
-	for _, n := range ns { // 1. tables, in declaration order
+	var hit *c04Node
+	hits, laterFirst := 0, false
+	for _, n := range ns { // 1. tables, in declaration order - whichever of them answers first
 		if n.kind == tblKind && n.ok {
 			for _, key := range n.keys {
 				if key == k {
-					stat("table")
-					return n.ch, true
+					hits++
+					if hit == nil {
+						hit = n
+					} else if n.delay < hit.delay {
+						laterFirst = true
+					}
+					break
 				}
 			}
 		}
+	}
+	if hit != nil {
+		stat("table")
+		if hit.delay > 0 {
+			stat("table.slow")
+		}
+		if hits > 1 {
+			stat("table.several-match")
+		}
+		if laterFirst {
+			stat("table.several-match.later-declared-answers-first")
+		}
+		return hit.ch, true
 	}
 	first := func(key string) *c04Node {
 		var hit *c04Node
@@ -1251,7 +1425,10 @@ func c04RunCase(t *testing.T, out *vh.Out, c *c04Case) {
 	var text strings.Builder
 	var tbls []*c04TableMod
 	c04Render(&text, c.root, 0, "", &tbls)
+	sched := &c04Sched{driver: c04Goid()}
+	c04CurSched = sched
 	for _, tm := range tbls {
+		tm.sched = sched
 		c04Register(tm)
 	}
 	nodes, err := parser.Read(strings.NewReader(text.String()), "c04")
@@ -1270,7 +1447,8 @@ func c04RunCase(t *testing.T, out *vh.Out, c *c04Case) {
 	out.Stat("load.ok")
 	out.Stat(fmt.Sprintf("load.ok.depth%d", c04Depth(c.root)))
 	c04PickStat = out.Stat
-	defer func() { c04PickStat = nil }()
+	c04SchedStat = out.Stat
+	defer func() { c04PickStat, c04SchedStat = nil, nil }()
 
 	// T3: every loaded block carries a decision
 	incomplete := 0
@@ -1398,10 +1576,25 @@ var c04OddDomains = [][]string{
 }
 
 var c04OddNames = []string{"underscore", "ipv4-literal", "ipv6-literal", "hyphen34", "leading-digit", "single-label",
-	"leading-hyphen", "trailing-hyphen", "joiner", "sharp-s", "all-numeric", "underscore-sub"}
+	"leading-hyphen", "trailing-hyphen", "joiner", "sharp-s", "all-numeric", "underscore-sub",
+	"mix.dotted-I", "mix.angstrom", "mix.tonos", "mix.sigma", "mix.j-caron"}
 
-// c04Domains followed by c04OddDomains; c04Addr.d indexes this table
-var c04AllDomains = append(append([][]string{}, c04Domains...), c04OddDomains...)
+// Domains with letters for which case mapping and normalisation interact: U+0130 (its NFD form is
+// I + U+0307; lower case of the NFC form is plain i), U+212B ANGSTROM SIGN (NFC: U+00C5), Greek with
+// tonos (U+0386 / U+0391 U+0301 / oxia U+1F71), capital sigma at the end of a word (lower case by
+// the simple mapping: U+03C3, never the final form), U+01F0 (precomposed in lower case only).  One row
+// = one domain by the documented normalisation (NFC, then lower case, A-labels decoded): every
+// spelling of a row is the same domain in another letter case / normalisation form / as A-label.
+var c04MixDomains = [][]string{
+	{"istanbul.example", "\u0130stanbul.example", "I\u0307stanbul.example", "ISTANBUL.Example"},
+	{"\u00e5ngstr\u00f6m.example", "\u212bngstr\u00f6m.example", "A\u030angstro\u0308m.EXAMPLE", "xn--ngstrm-hua5l.example", "XN--NGSTRM-HUA5L.Example", "\u00c5NGSTR\u00d6M.example"},
+	{"\u03ac\u03bb\u03c6\u03b1.example", "\u0386\u039b\u03a6\u0391.example", "\u0391\u0301\u039b\u03a6\u0391.example", "\u1f71\u03bb\u03c6\u03b1.example", "\u03b1\u0301\u03bb\u03c6\u03b1.example", "xn--hxak3a7b.example"},
+	{"\u03ba\u03ce\u03c3\u03c4\u03b1\u03c3.example", "\u039a\u038f\u03a3\u03a4\u0391\u03a3.example", "\u039a\u03a9\u0301\u03a3\u03a4\u0391\u03a3.EXAMPLE", "\u03ba\u03c9\u0301\u03c3\u03c4\u03b1\u03c3.example", "xn--mxar1abd2d.example"},
+	{"\u01f0an.example", "j\u030can.example", "xn--an-t5a.example", "\u01f0an.EXAMPLE."},
+}
+
+// c04Domains followed by c04OddDomains and c04MixDomains; c04Addr.d indexes this table
+var c04AllDomains = append(append(append([][]string{}, c04Domains...), c04OddDomains...), c04MixDomains...)
 
 // "main" or the name of the odd class the domain of a belongs to ("" = not from the alphabet)
 func c04DomClass(a string) string {
@@ -1438,6 +1631,13 @@ func c04LocalClass(a string) string {
 			}
 		}
 	}
+	for _, r := range c04MixLocals {
+		for _, v := range r {
+			if v == a[:at] {
+				return "case-norm-mix"
+			}
+		}
+	}
 	return ""
 }
 
@@ -1457,8 +1657,52 @@ var c04OddLocals = [][]string{
 	{"a=b~c", "A=B~C"},
 }
 
-// c04Locals followed by c04OddLocals; c04Addr.l indexes this table
-var c04AllLocals = append(append([][]string{}, c04Locals...), c04OddLocals...)
+// local parts with the letters of c04MixDomains; one row = one local part by the documented
+// normalisation (NFC, then lower case) in several spellings
+var c04MixLocals = [][]string{
+	{"ibrahim", "\u0130brahim", "I\u0307brahim", "IBRAHIM", "\u0130BRAH\u0130M", "I\u0307BRAHI\u0307M"},
+	{"\u00e5ngstr\u00f6m", "\u212bngstr\u00f6m", "A\u030angstro\u0308m", "\u00c5NGSTR\u00d6M", "a\u030aNGSTRO\u0308M"},
+	{"\u03ac\u03bb\u03c6\u03b1", "\u0386\u039b\u03a6\u0391", "\u0391\u0301\u039b\u03a6\u0391", "\u1f71\u03bb\u03c6\u03b1", "\u03b1\u0301\u03bb\u03c6\u03b1"},
+	{"\u03ba\u03ce\u03c3\u03c4\u03b1\u03c3", "\u039a\u038f\u03a3\u03a4\u0391\u03a3", "\u039a\u03a9\u0301\u03a3\u03a4\u0391\u03a3", "\u03ba\u03c9\u0301\u03c3\u03c4\u03b1\u03c3"},
+	{"\u01f0an", "j\u030can"},
+}
+
+// c04Locals followed by c04OddLocals and c04MixLocals; c04Addr.l indexes this table
+var c04AllLocals = append(append(append([][]string{}, c04Locals...), c04OddLocals...), c04MixLocals...)
+
+// The rows of the alphabet are equivalence classes by construction; this is a test of the harness (not
+// of maddy): the oracle's statement of the documented normalisation gives every spelling of a row the
+// same key and different rows different keys.
+func c04CheckAlphabet(t *testing.T) {
+	seen := map[string]int{}
+	for i, row := range c04AllDomains {
+		k0, ok := c04DocDomKey(row[0])
+		if !ok {
+			t.Fatalf("c04 alphabet: domain %q has no key", row[0])
+		}
+		for _, v := range row {
+			if k, ok := c04DocDomKey(v); !ok || k != k0 {
+				t.Fatalf("c04 alphabet: domain spellings %q and %q of row %d differ: %+q %+q", row[0], v, i, k0, k)
+			}
+		}
+		if j, dup := seen["d:"+k0]; dup {
+			t.Fatalf("c04 alphabet: domain rows %d and %d are the same domain", j, i)
+		}
+		seen["d:"+k0] = i
+	}
+	for i, row := range c04AllLocals {
+		k0, _ := c04DocKey(row[0] + "@example.org")
+		for _, v := range row {
+			if k, ok := c04DocKey(v + "@example.org"); !ok || k != k0 {
+				t.Fatalf("c04 alphabet: local part spellings %q and %q of row %d differ: %+q %+q", row[0], v, i, k0, k)
+			}
+		}
+		if j, dup := seen["l:"+k0]; dup {
+			t.Fatalf("c04 alphabet: local part rows %d and %d are the same", j, i)
+		}
+		seen["l:"+k0] = i
+	}
+}
 
 // the last two: quoted local parts (envelopes only; the key keeps the quotes)
 var c04OddAddrs = []string{"", "postmaster", "POSTMASTER", "nodomain", "alice@xn--zz", "alice@", "@example.org",
@@ -1471,6 +1715,12 @@ type c04Gen struct {
 	defect int
 	// % of the domains (envelopes, rules, table keys, replacement values) taken from c04OddDomains
 	oddPct int
+	// % of the domains and of the local parts taken from c04MixDomains / c04MixLocals
+	mixPct int
+	// % of the levels with rule blocks that get 2-4 table blocks sharing keys, with scripted latencies
+	multiPct int
+	// addresses that are keys of several tables of the configuration: envelopes use them often
+	hot []c04Addr
 }
 
 type c04Addr struct{ l, d int }
@@ -1478,12 +1728,18 @@ type c04Addr struct{ l, d int }
 // index into c04AllDomains: mostly the four ordinary domains (so that rules and envelopes keep meeting),
 // now and then one of the unusual ones
 func (g *c04Gen) dom() int {
+	if g.r.Chance(g.mixPct) {
+		return len(c04Domains) + len(c04OddDomains) + g.r.Intn(len(c04MixDomains))
+	}
 	if g.r.Chance(g.oddPct) {
 		return len(c04Domains) + g.r.Intn(len(c04OddDomains))
 	}
 	return g.r.Intn(len(c04Domains))
 }
 func (g *c04Gen) loc() int {
+	if g.r.Chance(g.mixPct) {
+		return len(c04Locals) + len(c04OddLocals) + g.r.Intn(len(c04MixLocals))
+	}
 	if g.r.Chance(g.oddPct / 3) {
 		return len(c04Locals) + g.r.Intn(len(c04OddLocals))
 	}
@@ -1551,6 +1807,17 @@ func (g *c04Gen) tableKeys(sender bool) []string {
 		}
 	}
 	return out
+}
+
+// answer latency of a table module (units of virtual time)
+func (g *c04Gen) latency() int {
+	switch {
+	case g.r.Chance(50):
+		return 0
+	case g.r.Chance(6):
+		return 30 + g.r.Intn(90)
+	}
+	return 1 + g.r.Intn(9)
 }
 
 func (g *c04Gen) modNode(level int) *c04Node {
@@ -1709,7 +1976,7 @@ func (g *c04Gen) level(level, depth int) []*c04Node {
 		if g.hit(g.defect) {
 			return &c04Node{kind: tblK, ch: body()}
 		}
-		return &c04Node{kind: tblK, ok: true, keys: g.tableKeys(level == 0), ch: body()}
+		return &c04Node{kind: tblK, ok: true, keys: g.tableKeys(level == 0), delay: g.latency(), ch: body()}
 	}
 	if g.r.Chance(flatPct) {
 		// no rule blocks: the rest of the level is the default block
@@ -1737,6 +2004,34 @@ func (g *c04Gen) level(level, depth int) []*c04Node {
 	}
 	for i := 0; i < nt; i++ {
 		blocks = append(blocks, tbl())
+	}
+	if g.r.Chance(g.multiPct) {
+		// several table blocks that contain the same addresses; the latencies are all different, so
+		// the order in which the modules answer is any order relative to the declaration order
+		blocks = nil
+		nt = 2 + g.r.Intn(3)
+		shared := []c04Addr{g.addr()}
+		if g.r.Chance(40) {
+			shared = append(shared, g.addr())
+		}
+		g.hot = append(g.hot, shared...)
+		lat := []int{0, 1, 2, 3, 5, 8, 40}
+		for i := len(lat) - 1; i > 0; i-- {
+			j := g.r.Intn(i + 1)
+			lat[i], lat[j] = lat[j], lat[i]
+		}
+		for i := 0; i < nt; i++ {
+			b := tbl()
+			if b.ok {
+				b.delay = lat[i]
+				for _, a := range shared {
+					if g.r.Chance(75) {
+						b.keys = append(b.keys, g.keyOf(a))
+					}
+				}
+			}
+			blocks = append(blocks, b)
+		}
 	}
 	nr := 1 + g.r.Intn(3)
 	for i := 0; i < nr; i++ {
@@ -1778,6 +2073,9 @@ func (g *c04Gen) level(level, depth int) []*c04Node {
 func (g *c04Gen) root(depth int) []*c04Node { return g.level(0, depth) }
 
 func (g *c04Gen) envAddr(sender bool) string {
+	if len(g.hot) > 0 && g.r.Chance(40) {
+		return g.spell(g.hot[g.r.Intn(len(g.hot))])
+	}
 	switch {
 	case g.r.Chance(12):
 		if sender {
@@ -1874,6 +2172,18 @@ func TestVerifC04Routing(t *testing.T) {
 	for i := 0; i < c04NTargets; i++ {
 		c04Register(&c04Target{id: i})
 	}
+	// cfgparser.Read builds a strings.Replacer from the whole environment on every call: keep the
+	// environment small (nothing in a generated configuration refers to it)
+	for _, kv := range os.Environ() {
+		name := strings.SplitN(kv, "=", 2)[0]
+		if !(strings.HasPrefix(name, "VERIF_") || strings.HasPrefix(name, "GO") || name == "PATH" || name == "HOME" || name == "TMPDIR") {
+			os.Unsetenv(name)
+		}
+	}
+	// thousands of short-lived configurations: collect less often
+	defer debug.SetGCPercent(debug.SetGCPercent(300))
+
+	c04CheckAlphabet(t)
 
 	// laws of the real normalisation functions the theorems assume
 	if k, err := address.ForLookup(""); err != nil || k != "" {
@@ -1916,6 +2226,18 @@ func TestVerifC04Routing(t *testing.T) {
 		default:
 			g.oddPct = 45 // rules, tables and envelopes over the unusual domains meet each other
 		}
+		switch (i / 40) % 5 {
+		case 0, 1, 2:
+			g.mixPct = 6
+		case 3:
+			g.mixPct = 0
+		default:
+			g.mixPct = 40 // rules, tables and envelopes over the case/normalisation letters meet each other
+		}
+		g.multiPct = 12
+		if i%7 == 3 {
+			g.multiPct = 70
+		}
 		c04RunCase(t, out, c04Decode(strings.Join(c04Encode(g.gen()), " ")))
 	}
 }
@@ -1947,6 +2269,18 @@ var c04Fixed = []string{
 	"C04 case 0 3 RU 2 " + vh.HexRunes("BUILD_Host.Example.NET") + " " + vh.HexRunes("[IPv6:2001:DB8::1]") + " 1 D 0 RU 2 " + vh.HexRunes("ops@AB--C.example.net") + " " + vh.HexRunes("localhost.") + " 1 D 1 DF 1 RJ 550 5 1 1 | 2" +
 		" E " + vh.HexRunes("") + " 3 " + vh.HexRunes("ops@build_host.example.net") + " " + vh.HexRunes("x@[ipv6:2001:db8::1]") + " " + vh.HexRunes("OPS@ab--c.example.net") +
 		" E " + vh.HexRunes("a@LOCALHOST") + " 3 " + vh.HexRunes("alice@LocalHost") + " " + vh.HexRunes("bob@ab--c.example.net") + " " + vh.HexRunes("carol@xn--strae-oqa.de"),
+	// two destination_in tables that both contain bob@example.org, the second one answers first (latency 1
+	// against 5): the FIRST DECLARED one is used; the same on the sender side (source_in) with three tables
+	"C04 case 0 3 TI TD 5 1 " + vh.HexRunes("bob@example.org") + " 1 D 0 TI TD 1 2 " + vh.HexRunes("bob@example.org") + " " + vh.HexRunes("alice@example.org") +
+		" 1 D 1 DF 1 D 2 | 2 E " + vh.HexRunes("x@example.com") + " 3 " + vh.HexRunes("bob@example.org") + " " + vh.HexRunes("alice@example.org") + " " + vh.HexRunes("carol@example.org") +
+		" V " + vh.HexRunes("x@EXAMPLE.com") + " 3 " + vh.HexRunes("Bob@Example.Org") + " " + vh.HexRunes("ALICE@example.org.") + " " + vh.HexRunes("CAROL@example.org"),
+	"C04 case 0 4 SI TD 40 1 " + vh.HexRunes("x@example.com") + " 1 D 0 SI TD 3 1 " + vh.HexRunes("x@example.com") + " 1 D 1 SI T 2 " + vh.HexRunes("x@example.com") + " " + vh.HexRunes("") +
+		" 1 D 2 SD 1 D 3 | 3 E " + vh.HexRunes("x@example.com") + " 1 " + vh.HexRunes("bob@example.org") + " E " + vh.HexRunes("") + " 1 " + vh.HexRunes("bob@example.org") + " E " + vh.HexRunes("y@example.com") + " 1 " + vh.HexRunes("bob@example.org"),
+	// one address in its two normalisation forms (U+0130 / I + U+0307) and in lower case: the same rule
+	// matches all of them, a second declaration in the other form is a duplicate (first declaration wins)
+	"C04 case 0 4 RU 1 " + vh.HexRunes("\u0130brahim@example.org") + " 1 D 0 RU 1 " + vh.HexRunes("I\u0307brahim@example.org") + " 1 D 1 RU 1 " + vh.HexRunes("example.org") +
+		" 1 D 2 DF 1 D 3 | 2 E " + vh.HexRunes("x@example.com") + " 3 " + vh.HexRunes("I\u0307brahim@example.org") + " " + vh.HexRunes("ibrahim@example.org") + " " + vh.HexRunes("\u0130brahim@\u0130stanbul.example") +
+		" V " + vh.HexRunes("x@example.com") + " 3 " + vh.HexRunes("\u0130brahim@example.org") + " " + vh.HexRunes("IBRAHIM@EXAMPLE.ORG") + " " + vh.HexRunes("I\u0307brahim@I\u0307stanbul.example"),
 	// address rule declared after the domain rule still wins; duplicates: first declaration wins
 	"C04 case 0 4 RU 1 " + vh.HexRunes("example.org") + " 1 D 0 RU 2 " + vh.HexRunes("Alice@EXAMPLE.org") + " " + vh.HexRunes("example.org") + " 1 D 1 RU 1 " + vh.HexRunes("alice@example.org") + " 1 D 2 DF 1 RJ 554 5 7 0 | 1 E " +
 		vh.HexRunes("") + " 3 " + vh.HexRunes("alice@example.org") + " " + vh.HexRunes("bob@example.org") + " " + vh.HexRunes("bob@example.com"),
